@@ -2,7 +2,7 @@
 EXTENDS Discrete
 ASSUME JsonSerialize(IOEnv.OUT, [lim |-> LimCases, aw |-> AWCases, cmp |-> CmpCases, sw |-> SwCases, sel |-> SelCases,
                                  hist |-> {HistCase(h, d) : h \in HistCalls(4), d \in {1, 2}} \cup {HistCase(h, 1) : h \in HistCalls(3)},
-                                 rt |-> RTCases(5),
+                                 rt |-> RTCases(5), rl |-> RLCases, awr |-> AWRCases,
                                  samp |-> {SampCase(h) : h \in MonoCalls(5)},
                                  degenerate |-> Cardinality(DegenerateCases)])
 ====
